@@ -212,6 +212,22 @@ def _plain(v):
     return v
 
 
+def _absent(u):
+    """a value of the labels' kind that none of them equals, but close to a present label OTHER than u[0] (a longer
+    string starting with the longest other label, a number half-way above the last one)"""
+    if len(u) < 2 or isinstance(u[0], bool):
+        return None
+    if isinstance(u[0], str):
+        c = max(u[1:], key=len) + '0'
+        while c in u:
+            c += '0'
+        return c
+    if isinstance(u[0], (int, float)):
+        c = u[-1] + 0.5
+        return None if any(_eq(c, w) for w in u) else c
+    return None
+
+
 # ----------------------------------------------------------------------------- transitions
 def enabled(obj, model):
     from rsatoolbox.data import Dataset, TemporalDataset
@@ -259,6 +275,11 @@ def enabled(obj, model):
                 return one(None, model, ex)
             add(('split_obs', by, 'partition+merge'), chk)
         menu = [u[0]] + ([[u[0], u[-1]]] if len(u) > 1 else []) + ([u[-1]] if len(u) > 1 else [])
+        # a value list made for the complete data applied to a part of it: one requested value is not present -
+        # a longer label with a present one as its prefix, a number between the present ones
+        ab = _absent(u)
+        if ab is not None:
+            menu.append([u[0], ab])
         for val in menu:
             vs = val if isinstance(val, list) else [val]
             want = [r for r, d in zip(rows, desc) if any(_eq(d, v) for v in vs)]
@@ -288,6 +309,9 @@ def enabled(obj, model):
                 return one(None, model, ex)
             add(('split_channel', by, 'partition'), chk)
         menu = [u[0]] + ([[u[0], u[-1]]] if len(u) > 1 else [])
+        ab = _absent(u)
+        if ab is not None:
+            menu.append([u[0], ab])
         for val in menu:
             vs = val if isinstance(val, list) else [val]
             want = [c for c, d in zip(cols, desc) if any(_eq(d, v) for v in vs)]
